@@ -327,7 +327,7 @@ def execute(plan: dict, *, want_digest: bool = False, want_trace: bool = False) 
         "faults": dict(sim.faults),
         "probes": dict(sim.probes),
         "steps": sim.step,
-        "vtime": 0.0,
+        "vtime": max((r[2] for r in sim.trace if r[2] < 1e6), default=0.0),
         "sig": sim.signature(),
         "deadlock": sim.deadlock,
         "crashed": sim.crashed,
@@ -393,6 +393,7 @@ def oracle(sim: Sim, plan: dict) -> list[dict]:
     missing = [t for t in regs if ran.count(t) == 0]
     dup = sorted({t for t in ran if ran.count(t) > 1})
     ending = _ending(plan, tr)
+    sim.probe("ending:" + ending + (":cli" if plan.get("cli") else ":service"))
     if missing:
         v("C15.teardown", f"skipped@{ending}", f"teardown callbacks {missing} never ran (ending: {ending}); registered {regs}, ran {ran}")
     if dup:
